@@ -268,3 +268,18 @@ BP('C20', 'rf-c20-3', 'rf-c20-3.diff',
    'independent refactoring: Epoch key material / eligibility mechanism in services/epoch_service.rs (MithrilEpochService). `can_signer_sign_current_epoch`: nested if-let/else flattened with a let-else early return for the `no protocol initializer` case and a named `is_signer_included` boolean that is returned directly. `is_signer_i')
 BP('C20', 'rf-c20-4', 'rf-c20-4.diff',
    'independent refactoring: Key registration mechanism in runtime/runner.rs (SignerRunner). `register_signer_to_aggregator`: the inline `match` that reads the operational certificate from the configured path is extracted into a new private inherent method `SignerRunner::read_operational_certificate` (written with let-else); the gua')
+
+
+# ---- the independent refactorings of one property applied TOGETHER (interactions between rewritten helpers)
+def _combos():
+    by = {}
+    for b in list(BENIGN):
+        if 'patch' in b and b['id'].startswith('rf-'):
+            by.setdefault(b['prop'], []).append(b['patch'])
+    for prop, ps in sorted(by.items()):
+        if len(ps) >= 2:
+            BENIGN.append({'prop': prop, 'id': 'rf-%s-all' % prop.lower(), 'patches': sorted(ps),
+                           'why': 'all independent refactorings of this property that apply together'})
+
+
+_combos()
